@@ -140,7 +140,18 @@ def ev_e164t(n, origin, plus):
             "res": outcome(lambda: dns.e164.to_e164(name, o, plus), codes)}
 
 
-OPS = {"ntoa6": ev_ntoa6, "ntoa4": ev_ntoa4, "aton": ev_aton, "canon": ev_canon, "inet": ev_inet,
+def ev_family(bad):
+    """dns.inet.any_for_af and the NotImplementedError the family dispatchers document"""
+    return {"op": "family", "bad": bad,
+            "any4": outcome(lambda: dns.inet.any_for_af(socket.AF_INET), codes),
+            "any6": outcome(lambda: dns.inet.any_for_af(socket.AF_INET6), codes),
+            "anybad": outcome(lambda: dns.inet.any_for_af(bad), codes),
+            "ptonbad": outcome(lambda: dns.inet.inet_pton(bad, "1.2.3.4"), list),
+            "ntopbad": outcome(lambda: dns.inet.inet_ntop(bad, b"\x01\x02\x03\x04"), codes),
+            "llbad": outcome(lambda: dns.inet.low_level_address_tuple(("1.2.3.4", 53), bad), lowlevel)}
+
+
+OPS = {"family": ev_family, "ntoa6": ev_ntoa6, "ntoa4": ev_ntoa4, "aton": ev_aton, "canon": ev_canon, "inet": ev_inet,
        "fromaddr": ev_fromaddr, "toaddr": ev_toaddr, "e164f": ev_e164f, "e164t": ev_e164t}
 
 
